@@ -215,11 +215,15 @@ class Ctx:
         log("TLC %s %s: %d distinct states, %d transitions, depth %d, %.1fs" % (module, cfg, r["distinct"], r["generated"], r["depth"], r["wall_s"]))
         return r
 
-    def validate_trace(self, specdir, module, cfg, tracefile, timeout=900, tag=None, workers=1):
+    def validate_trace(self, specdir, module, cfg, tracefile, timeout=900, tag=None, workers=1, split=True):
         """Trace validation by TLC. Returns (accepted, failing_line or None, nlines)."""
         n = sum(1 for _ in open(tracefile))
         if n == 0:
             return True, None, 0
+        if split and os.path.getsize(tracefile) > CHUNK_BYTES:
+            # the Json module reads a file into one Java string (< 2^31 characters): a large log is validated in pieces,
+            # cut at Reset lines (each piece is a sequence of complete traces)
+            return self._validate_chunks(specdir, module, cfg, tracefile, timeout, tag, workers, n)
         r = self.tlc(specdir, module, cfg, workers=workers, timeout=timeout, extra_files=[(tracefile, "trace.ndjson")],
                      tag=tag or ("val_" + os.path.basename(tracefile)))
         accepted = (not r["errors"]) and r["depth"] - 1 == n
@@ -229,6 +233,36 @@ class Ctx:
         if accepted:
             self.cov["events_validated"] += n
         return accepted, (None if accepted else r["depth"]), n
+
+    def _validate_chunks(self, specdir, module, cfg, tracefile, timeout, tag, workers, n):
+        base, k, done = tracefile + ".part", 0, 0
+        out, size, lines = None, 0, 0
+        parts = []
+        with open(tracefile) as f:
+            for line in f:
+                if out is None or (size > CHUNK_BYTES and line.startswith('{"ev":"Reset"')):
+                    if out:
+                        out.close()
+                        parts.append((pth, lines))
+                    k += 1
+                    pth = "%s%d" % (base, k)
+                    out, size, lines = open(pth, "w"), 0, 0
+                out.write(line)
+                size += len(line)
+                lines += 1
+        out.close()
+        parts.append((pth, lines))
+        try:
+            for pth, ln in parts:
+                ok, bad, _ = self.validate_trace(specdir, module, cfg, pth, timeout=timeout, tag=(tag or "val") + "_" + os.path.basename(pth)[-6:], workers=workers, split=False)
+                if not ok:
+                    return False, done + bad, n
+                done += ln
+            return True, None, n
+        finally:
+            for pth, _ in parts:
+                if os.path.exists(pth):
+                    os.remove(pth)
 
     # ---------------------------------------------------------------- verdicts
     def violation(self, msg, replay_obj, key=None):
@@ -294,6 +328,9 @@ def first_panic_line(stderr):
         if l.startswith("panic:") or l.startswith("fatal error:"):
             return l[:300]
     return ""
+
+
+CHUNK_BYTES = int(os.environ.get("VERIF_CHUNK_BYTES", 600 * 1000 * 1000))
 
 
 def crash_frame(stderr):
